@@ -447,6 +447,20 @@ def _unary(case):
                     if not same(r.data[i], w.data[0]):
                         c.fail("interp/vector/elements", "interp(s)[%d] differs from interp(s[%d])" % (i, i), index=i)
                         break
+        # the same with the optional start pose (position or keyword), end points 0 and 1 included in the vector
+        if len(singles) > 1:
+            Y0 = singles[1]
+            for site, svx, call in (("interp/vector/start", [0.0] + list(sv) + [1.0], lambda o, a: o.interp(a, Y0)),
+                                    ("interp/vector/start=", [0] + list(sv) + [1], lambda o, a: o.interp(a, start=Y0))):
+                ok, r = c.lib(site, call, singles[0], svx)
+                if ok and c.true(site + "/class", type(r) is cls and len(r) == len(svx), "interp over %d values of s with a start pose gives %s of length %s" % (
+                        len(svx), type(r).__name__, len(r) if hasattr(r, "__len__") else "?")):
+                    for i, si in enumerate(svx):
+                        ok2, w = c.lib(site + "/single", call, singles[0], si)
+                        if ok2 and not same(r.data[i], w.data[0]):
+                            c.fail(site + "/elements", "interp(s, start)[%d] differs from interp(s[%d]=%r, start)" % (i, i, si), index=i, s=float(si))
+                            break
+            objm("interp/scalar/start", lambda o: o.interp(s, Y0))
         if M > 1:
             ok, pr = c.lib("prod", X.prod)
             if ok:
